@@ -75,6 +75,7 @@ def run(ctx):
             what = ("tick without control accepted on a filter with control" if job["_hc"]
                     else "tick with control accepted on a filter without control")
             ctx.violation("cpp:illegal-tick-compiles:control=%d,variant=%d" % (job["_hc"], job["_neg"]), what, {"job": job})
+    realpart = real_filter_part(ctx)
     nontriv = sum(1 for s in scns if sum(len(tk["rs"]) for tk in s["ticks"]) >= 2)
     cov = {"states": stats["states"], "transitions": stats["transitions"],
            "traces_validated_against_impl": len(scns) * 3,
@@ -86,7 +87,7 @@ def run(ctx):
            "exhaustive": bool(stats.get("exhaustive_replayed_all")),
            "exhaustive_scope": "MC_MF_E / MC_MF_Eq: all histories of <=2 ticks x <=2 readings on 7 (5) time points model-checked for "
                                "InvGhost (reading-less ticks never matter), InvReport, ActRefused, ActHeldTime; MC_MF_E1 replayed",
-           "tlc_runs": stats["tlc_runs"]}
+           "tlc_runs": stats["tlc_runs"], "real_python_filter": realpart}
     return finish(ctx, LEVEL, cov, ASSUME)
 
 
@@ -98,3 +99,93 @@ def replay(ctx, path):
     pres = mfcheck.replay_python(ctx, [s])
     print(json.dumps(pres[0], default=str)[:1000])
     return 1 if pres[0]["mismatch"] else 0
+
+
+# ------------------------------------------------------------------ second family: a REAL compiled filter (Python) ----
+def real_filter_task(mods, defj, mf_scns, maxn):
+    """tick a real compiled (non-linear, dt-dependent) Python EKF through runtime.ManagedFilter along ManagedFilter.tla histories and
+    compare every returned / held estimate with the hand fold of process_model / sensor_model in the call order the SPEC gives"""
+    import numpy as np
+    import pyrep
+    from build import Definition
+    ui, python, runtime = mods["ui"], mods["python"], mods["runtime"]
+    UNIT = 2.0 ** -10
+    d = Definition(defj)
+    model, symtab = pyrep.make_ui_model(d, ui)
+    pn, sm, sn, cm = pyrep.ekf_args(d, symtab)
+    ekf = python.compile_ekf(model, pn, sm, sn, cm, config={"common_subexpression_elimination": False, "innovation_filtering": None, "max_dt_sec": maxn * UNIT})
+    keys = sorted(d.sensors)
+    out = []
+    for s in mf_scns:
+        x0 = ekf.State(**{n: (i + 1) / 2.0 for i, n in enumerate(d.state)})
+        P0 = ekf.Covariance()
+        mf = runtime.ManagedFilter(ekf, start_time=s["t0"] * UNIT, state=x0, covariance=P0)
+        bad = None
+        try:
+            for ti, tk in enumerate(s["ticks"], start=1):
+                ctl = ekf.Control(**{c: (ti + j) / 4.0 for j, c in enumerate(d.control)}) if tk["ctl"] else None
+                mk = lambda r: {rn: (r["id"] * 3 + j) / 4.0 - 1.0 for j, rn in enumerate(sorted(d.sensors[keys[int(r["key"][1:]) - 1]]))}
+                readings = [runtime.StampedReading(r["t"] * UNIT, keys[int(r["key"][1:]) - 1], **mk(r)) for r in tk["rs"]]
+                if tk["refused"]:
+                    try:
+                        mf.tick(tk["out"] * UNIT, control=None, readings=readings)
+                        bad = {"tick": ti, "what": "tick-without-control-accepted"}
+                        break
+                    except TypeError:
+                        continue
+                got = mf.tick(tk["out"] * UNIT, control=ctl, readings=readings)
+                # hand fold in the spec's order
+                st, cv = x0, P0
+                rd_by_id = {r["id"]: (keys[int(r["key"][1:]) - 1], mk(r)) for t2 in s["ticks"][:ti] if not t2["refused"] for r in t2["rs"]}
+                ctl_by_tick = {t2i: (ekf.Control(**{c: (t2i + j) / 4.0 for j, c in enumerate(d.control)})) for t2i in range(1, ti + 1)}
+                for op in tk["ret"]:
+                    if op[0] == "P":
+                        c_ = ctl_by_tick[op[2]] if op[2] else (ekf.Control() if not d.control else None)
+                        st, cv = ekf.process_model(op[1] * UNIT, st, cv, c_)
+                    else:
+                        key, z = rd_by_id[op[2]]
+                        st, cv = ekf.sensor_model(st, cv, sensor_key=key, sensor_reading=ekf.make_reading(key, **z))
+                if not (np.array_equal(got.state.data, st.data) and np.array_equal(got.covariance.data, cv.data)):
+                    if np.all(np.isfinite(st.data)) and np.all(np.isfinite(got.state.data)):
+                        bad = {"tick": ti, "what": "tick-differs-from-hand-fold", "expected": st.data.tolist(), "observed": got.state.data.tolist()}
+                        break
+        except (AssertionError, ZeroDivisionError, FloatingPointError, np.linalg.LinAlgError) as e:
+            bad = None       # the history left the filter's domain (invalid covariance / pole): no claim
+        out.append(bad)
+    return out
+
+
+def real_filter_part(ctx):
+    import random
+    import tlc
+    import workers
+    from build import Definition
+    rnd = random.Random(ctx.seed)
+    r = tlc.run("MC_EKF", cfg="MC_C12_sim.cfg", mode="sim", workers=8, num=(10 if ctx.quick else 60), depth=90, seed=ctx.seed + 11, timeout=600)
+    defs = r.printed[: (12 if ctx.quick else 150)]
+    mf = {}
+    for n in range(4):
+        rr = tlc.run("MC_MF_c12_%d" % n, mode="sim", workers=2, num=(60 if ctx.quick else 600), depth=40, seed=ctx.seed + 12, timeout=600)
+        mf[n] = rr.printed
+    tasks, meta = [], []
+    for i, s in enumerate(defs):
+        d = Definition(s["def"])
+        maxn = 1 + i % 3
+        pool = [m for m in mf[min(3, len(d.sensors))] if m["max"] == maxn and bool(m["hasControl"]) == bool(d.control)]
+        rnd.shuffle(pool)
+        pick = pool[: (5 if ctx.quick else 15)]
+        if pick:
+            tasks.append(("props.c11", "real_filter_task", (s["def"], pick, maxn), 600))
+            meta.append((s, pick))
+    res = workers.run_tasks(tasks, procs=ctx.cores)
+    n = 0
+    for (s, pick), (status, outs) in zip(meta, res):
+        if status != "ok":
+            ctx.dropped += 1
+            ctx.notes.append(str(outs)[-300:])
+            continue
+        for h, bad in zip(pick, outs):
+            n += 1
+            if bad:
+                ctx.violation("py-real-filter:" + bad["what"], "tick %s: %s" % (bad["tick"], json.dumps(bad)[:300]), {"definition": s["def"], "history": h, "mismatch": bad})
+    return {"real_filter_histories": n, "real_filters": len(meta)}
